@@ -81,7 +81,7 @@ theorem C10_slp_A (T : TextOracle) (r : Replay) (s : Start) (h : r.WF T s) (e : 
   _root_.Peppi.C10_slp_A T r s h e hfe hash
 
 /- from `Peppi.Lemmas.PeppiRound` -/
-theorem peppiRead_written_skip {χ : Type} (T : TextOracle) (g : PGame χ) (startBytes : Bytes) (endBytes : Option Bytes) (trailerOk : Bool)
+theorem peppiRead_written_skip {μ φ : Type} (T : TextOracle) (g : PGame μ φ) (startBytes : Bytes) (endBytes : Option Bytes) (trailerOk : Bool)
     (hstart : gameStart T startBytes = .ok g.start)
     (hend : endBytes.map gameEnd = g.fend.map Res.ok)
     (hgecko : ∀ c, g.gecko = some c → c.2 < 2 ^ 32)
@@ -136,12 +136,13 @@ theorem C10_rewrite_any (T : TextOracle) (r : Replay) (s : Start) (gk : Option G
   _root_.Peppi.C10_rewrite_any T r s gk h hmax e hfe hash
 
 /- from `Peppi.SlppBytes` -/
-theorem slppRead_written {χ : Type} (C : Codec χ) (T : TextOracle) (g : PGame χ) (startBytes : Bytes) (endBytes : Option Bytes)
+theorem slppRead_written {μ φ : Type} (C : Codec μ φ) (T : TextOracle) (g : PGame μ φ) (startBytes : Bytes) (endBytes : Option Bytes)
     (hstart : gameStart T startBytes = .ok g.start)
     (hend : endBytes.map gameEnd = g.fend.map Res.ok)
     (hgecko : ∀ c, g.gecko = some c → c.2 < 2 ^ 32)
     (hs : SizesOK C g startBytes endBytes) (skip : Bool) :
-    slppRead C T skip (slppWrite C g startBytes endBytes) = .ok (if skip then { g with frames := none } else g) :=
+    slppRead C T skip (slppWrite C g startBytes endBytes) =
+      .ok (if skip then { g with frames := none } else { g with frames := g.frames.map C.norm }) :=
   _root_.Peppi.slppRead_written C T g startBytes endBytes hstart hend hgecko hs skip
 
 end Peppi.Props.C10
